@@ -156,12 +156,22 @@ func scenario(c *vk.Ctx, i int) {
 	buf := []int{0, 1, 10}[r.Intn(3)]
 	chatty := r.Intn(2) == 0
 	st := &slowStore{Storage: memory.NewStorage(), maxUs: int64([]int{0, 200, 2000}[r.Intn(3)])}
+	flood := (i/2)%3 == 0 // every third scenario: dense back-to-back sends against a slow reader, so that the buffer is full most of the time
+	if flood {
+		st.maxUs = 0
+		M = 25
+		if G < 4 {
+			G = 4
+		}
+	}
 	c0 := 0
 	if r.Intn(3) == 0 {
 		c0 = r.Intn(500)
 		_ = st.SetSeqNum(fix.StorageID{Side: fix.Outgoing}, c0)
 	}
-	desc := fmt.Sprintf("%s G=%d M=%d buf=%d chatty=%v storeDelayMaxUs=%d c0=%d GOMAXPROCS=%d #%d", role, G, M, buf, chatty, st.maxUs, c0, runtime.GOMAXPROCS(0), i)
+	slowPeer := []time.Duration{0, 100 * time.Microsecond, 300 * time.Microsecond}[r.Intn(3)]
+	desc := fmt.Sprintf("%s flood=%v G=%d M=%d buf=%d chatty=%v storeDelayMaxUs=%d peerReadsEvery=%v c0=%d GOMAXPROCS=%d #%d", role, flood, G, M, buf, chatty, st.maxUs, slowPeer, c0, runtime.GOMAXPROCS(0), i)
+	_ = desc
 	replay := map[string]interface{}{"scenario": desc, "index": i, "seed": c.Seed}
 	f, err := rig.StartFull(rig.FullCfg{Role: role, HeartBtInt: 1, BufSize: buf, Counter: st, Messages: st, Notify: true, Label: fmt.Sprintf("c05-%d", i),
 		AfterRun: func(h *simplefixgo.DefaultHandler, s *session.Session) {
@@ -185,6 +195,10 @@ func scenario(c *vk.Ctx, i int) {
 		c.Inconclusive("logon did not complete: " + desc)
 		return
 	}
+	if flood && slowPeer == 0 {
+		slowPeer = 300 * time.Microsecond
+	}
+	l.Conn.SetWriteDelay(slowPeer) // a peer that reads slowly: the outgoing buffer fills up during bursts
 	// senders: bursts whose start times are spread across the 1 s heartbeat and 2 s test-request expiries
 	var mu sync.Mutex
 	var sends []sendRec
@@ -197,7 +211,7 @@ func scenario(c *vk.Ctx, i int) {
 			rr := rand.New(rand.NewSource(int64(i*100 + g)))
 			time.Sleep(time.Duration(rr.Intn(900)) * time.Millisecond)
 			for k := 0; k < M; k++ {
-				if rr.Intn(4) == 0 {
+				if !flood && rr.Intn(4) == 0 {
 					time.Sleep(time.Duration(rr.Intn(700)) * time.Millisecond)
 				}
 				m := fixgen.CreateMarketDataRequestReject(fmt.Sprintf("g%d-%d", g, k))
@@ -361,7 +375,7 @@ func main() {
 	// one GOMAXPROCS setting per shard
 	gmp := []int{16, 1, 2}[c.Shard%3]
 	runtime.GOMAXPROCS(gmp)
-	c.Rule("session i: either role on the full stack (real Initiator.Serve / Acceptor.ListenAndServe goroutines on a scripted net.Conn), logon by the scripted peer with N=1, then G in {1,2,4,8,16} goroutines x M in 3..16 application sends in bursts spread over 2.6 s (so that heartbeat and test-request timers expire in between), while the peer injects TestRequests and damaged messages (replies and rejects originate on the inbound goroutine) or stays silent; handler buffer {0,1,10}; a store decorator sleeps 0..2 ms after the counter increment, inside Save and in an outgoing handler; one GOMAXPROCS value per shard {16,1,2}; optional second session on the same counter store. Oracle on the peer-side capture (reference splitter): 34 = c0+1,c0+2,... in wire order; 49/56; 52 parses, never goes backwards along the wire, is not later than the write, lies within [call,return] of its Send; porcupine counter model over the Send operations. distinct = (role, interleaving signature of source kinds on the wire, G, M, buffer); non-trivial = at least 2 source kinds on the wire")
+	c.Rule("session i: either role on the full stack (real Initiator.Serve / Acceptor.ListenAndServe goroutines on a scripted net.Conn), logon by the scripted peer with N=1, then G in {1,2,4,8,16} goroutines x M in 3..16 application sends in bursts spread over 2.6 s (so that heartbeat and test-request timers expire in between), while the peer injects TestRequests and damaged messages (replies and rejects originate on the inbound goroutine) or stays silent; handler buffer {0,1,10}; the peer reads instantly or takes 100/300 us per message (so that bursts fill the buffer); a store decorator sleeps 0..2 ms after the counter increment, inside Save and in an outgoing handler; one GOMAXPROCS value per shard {16,1,2}; optional second session on the same counter store. Oracle on the peer-side capture (reference splitter): 34 = c0+1,c0+2,... in wire order; 49/56; 52 parses, never goes backwards along the wire, is not later than the write, lies within [call,return] of its Send; porcupine counter model over the Send operations. distinct = (role, interleaving signature of source kinds on the wire, G, M, buffer); non-trivial = at least 2 source kinds on the wire")
 	c.Assume("precondition of the statement: no handler refuses, the stores do not fail; clocks: wall clock without steps during a 3 s scenario (2 ms tolerance)")
 	n := c.Pick(24, 500) // per shard
 	var wg sync.WaitGroup
